@@ -173,6 +173,23 @@ def real_parse(cls, t, data: dict):
     return ("ok", canon_plain(t, plain_of_instance(t, m)))
 
 
+def real_parse_seq(cls, t, rows: list):
+    """the rows parsed one after the other by ONE RowParser (as SheetParser does for a sheet)"""
+    from rpft.parsers.common.cellparser import CellParser
+    from rpft.parsers.common.rowparser import RowParser
+
+    rp = RowParser(cls, CellParser())
+    out = []
+    for data in rows:
+        try:
+            m = rp.parse_row(dict(data))
+        except Exception as e:  # noqa: BLE001
+            out.append(("err", type(e).__name__))
+            continue
+        out.append(("ok", canon_plain(t, plain_of_instance(t, m))))
+    return out
+
+
 def model_result(r):
     """{"ok": v} | {"err": k} from the driver → same shape as real_parse"""
     if r is None:
@@ -382,10 +399,41 @@ def flow_row_schema():
     mod_ast = _parse("parsers/creation/flowrowmodel.py")
     mod = T.load_module()
     t = desc_of_class(mod.FlowRowModel, T.source_maps(mod_ast))
-    frm = _find_class(mod_ast, "FlowRowModel")
-    ctx = [n for n in frm.body if getattr(n, "name", "") == "header_name_to_field_name_with_context"][0]
-    basic = dict(T._dict_literal(ctx, "basic_header_dict"))
-    mainarg = T._dict_literal(ctx, "row_type_to_main_arg")
-    hdr, tcol = T._main_header(ctx)
+    try:
+        frm = _find_class(mod_ast, "FlowRowModel")
+        ctx = [n for n in frm.body if getattr(n, "name", "") == "header_name_to_field_name_with_context"][0]
+        basic = dict(T._dict_literal(ctx, "basic_header_dict"))
+        mainarg = T._dict_literal(ctx, "row_type_to_main_arg")
+        hdr, tcol = T._main_header(ctx)
+    except (KeyError, IndexError, ValueError, SyntaxError, AssertionError):
+        # the tables are not where the translator looks for them (the Lean step reports that): read them off
+        # the BEHAVIOUR of the function instead, so that generators and the direct oracle keep working
+        import ast as _ast
+
+        consts = []
+        for n in _ast.walk(mod_ast):
+            if isinstance(n, _ast.Constant) and isinstance(n.value, str) and n.value not in consts:
+                consts.append(n.value)
+        f = mod.FlowRowModel.header_name_to_field_name_with_context
+        hdr, tcol = "message_text", "type"
+        mainarg = []
+        for ty in consts:
+            try:
+                r = f(hdr, {tcol: ty})
+            except Exception:  # noqa: BLE001
+                continue
+            if isinstance(r, str) and r != hdr:
+                mainarg.append((ty, r))
+        some_type = mainarg[0][0] if mainarg else "send_message"
+        basic = {}
+        for h in consts:
+            if h == hdr:
+                continue
+            try:
+                r = f(h, {tcol: some_type})
+            except Exception:  # noqa: BLE001
+                continue
+            if isinstance(r, str) and r != h:
+                basic[h] = r
     sj = schema_json(t, basic, [hdr, tcol, [[a, b] for a, b in mainarg]])
     return t, sj, dict(mainarg)
